@@ -246,6 +246,7 @@ class ModelRun:
 
 def run_model(interp, project, entry='lib', root='/p', out='/out', world=None, cli_args=None):
     """execute the repository's generation path over the project; returns ModelRun"""
+    V.CALL_STACK.clear()
     w = world if world is not None else project.world(root)
     interp.fs = w
     interp.hooks['syn::parse_file'] = project.parse_hook()
